@@ -69,7 +69,7 @@ def enc_value_check(ctx, rng):
         in_cmd = rng.random() < 0.5
         sep = rng.choice([b" ", b"  ", b"\t", b" \t "] + ([b" ^ ", b"^ ^ ", b" ^\t", b"^ "] if in_cmd else []))
         arg = rng.choice([b64, b'"' + b64 + b'"', b"'" + b64 + b"'"])
-        exe = rng.choice([b"powershell", b"pwsh", b"powershell.exe", b"PowerShell"])
+        exe = rng.choice([b"powershell", b"pwsh", b"powershell.exe", b"PowerShell"] + ([b"powershell^.exe", b"p^owershell", b"power^shell.e^xe", b"pwsh^.exe", b"p^w^s^h"] if in_cmd else []))
         flags = rng.choice([b"", b" -nop", b" -NoP -NonI", b" /nop", b" -nop -sta"])      # value-less switches only (the property's wording)
         inv = exe + flags + b" " + style + sw + sep + arg
         data = (b"cmd /c " if in_cmd else rng.choice([b"", b"x; "])) + inv
@@ -88,7 +88,7 @@ def enc_value_check(ctx, rng):
         if b"^" in data:
             ok = found          # caret-escaped invocation: reported as a de-escaped cmd result carrying the decoded PowerShell result (span of that child: known finding F19)
         else:
-            ok = [h for h in found if h in hits and h.end == len(data) and data[h.start:h.start + 2].lower() in (b"po", b"pw")]
+            ok = [h for h in found if any(h is t for t in hits) and h.end == len(data) and data[h.start:h.start + 2].lower() in (b"po", b"pw")]
         ctx.count("enc_by_construction:" + ("ok" if ok else "missing"))
         if not ok:
             ctx.violation("find_powershell_strings", [data], f"encoded-command invocation {inv[:80]!r}: no result whose value ends in {want_tail!r} covering the invocation up to the end of its argument; got {[(h.type, bytes(h.value)[:50], h.obfuscation, h.start, h.end) for h in hits][:3]}")
